@@ -213,6 +213,7 @@ def bind_instance(sc, obj, name, special=None):
       attrs[k] = sc.add(M.MRLock("%s.%s" % (name, k)))
     elif isinstance(v, threading.Event):
       attrs[k] = sc.add(M.MEvent("%s.%s" % (name, k), 1 if v.is_set() else 0))
+      sc.auto_bound.append((name, k, "%s.%s" % (name, k), "Event"))      # the replay harness proxies it (R.auto_proxy)
     elif v is None or isinstance(v, (bool, int, str)):
       attrs[k] = v
   return attrs
